@@ -332,8 +332,15 @@ func SubscribeWithReplay[T any](
 	}
 
 	// Subscribe for future events with offset tracking
+	// Reading the bus's last offset and saving it happen under one lock: with
+	// concurrent publishers a handler that read an older offset could
+	// otherwise save it after a newer one, moving the saved position backwards
+	var saveMu sync.Mutex
 	wrappedHandler := func(event T) {
 		handler(event)
+
+		saveMu.Lock()
+		defer saveMu.Unlock()
 
 		// Update offset after handling
 		bus.storeMu.RLock()
